@@ -1000,3 +1000,118 @@ Proof.
   - unfold vec_resize_with, set_data, set_m_shape. cbn [m_data m_order m_shape]. rewrite L. reflexivity.
 Qed.
 (* END *)
+
+(* ---------- convert.rs: the three TryFrom conversions from rows and FromIterator ---------- *)
+(* BEGIN Matrix_try_from_array *)
+(* the row loop with its early `return Err(LengthInconsistent)` is the model's recursion over the rows *)
+Lemma gen_try_from_loop_a {A} (nc : Z) (sh : AxisShape) : forall (rows : list (list A)) (data : list A),
+  (let* lr := for_try rows data (fun row st => let data := st in
+       if negb (zlen row =? nc) then Val (Err LengthInconsistent) else Val (Ok (vec_extend data row))) in
+   match lr with Ok data => Val (Ok (mkMatrix RowMajor sh data)) | Err e => Val (Err e) end)
+  = (fix go (rs : list (list A)) (data : list A) : res (result (matrix A)) :=
+       match rs with
+       | [] => Val (Ok (mkMatrix RowMajor sh data))
+       | r :: t => if negb (zlen r =? nc) then Val (Err LengthInconsistent) else go t (data ++ r)
+       end) rows data.
+Proof.
+  induction rows as [|r t IH]; intros data; cbn [for_try bind]; [reflexivity|].
+  destruct (negb (zlen r =? nc)); cbn [bind]; [reflexivity|]. apply IH.
+Qed.
+Lemma gen_Matrix_try_from_array {A} c es (rows : list (list A)) : 0 <= imax c -> G_Matrix_try_from_array c es rows = try_from_rows c es rows.
+Proof.
+  intros Hc. unfold G_Matrix_try_from_array, try_from_rows, decide_ctor, decide_shape.
+  cbv zeta. cbn [G_Shape_new bind]. rewrite gen_Shape_try_to_axis_shape. cbn [bind].
+  change (rows_first_len rows) with (match rows with [] => 0 | r :: _ => zlen r end).
+  destruct (Shape_try_to_axis_shape c _ RowMajor) as [s|e]; [|reflexivity].
+  rewrite gen_AxisShape_size. destruct (AxisShape_size c s) as [n|w|w]; cbn [bind]; try reflexivity.
+  rewrite gen_Matrix_check_size by exact Hc. cbn [bind]. destruct (check_size c es n) as [sz|e]; [|reflexivity].
+  cbn [bind]. apply (gen_try_from_loop_a _ s rows (vec_with_capacity sz)).
+Qed.
+(* END *)
+(* BEGIN Matrix_try_from_vec *)
+(* the row loop with its early `return Err(LengthInconsistent)` is the model's recursion over the rows *)
+Lemma gen_try_from_loop_v {A} (nc : Z) (sh : AxisShape) : forall (rows : list (list A)) (data : list A),
+  (let* lr := for_try rows data (fun row st => let data := st in
+       if negb (zlen row =? nc) then Val (Err LengthInconsistent) else Val (Ok (vec_extend data row))) in
+   match lr with Ok data => Val (Ok (mkMatrix RowMajor sh data)) | Err e => Val (Err e) end)
+  = (fix go (rs : list (list A)) (data : list A) : res (result (matrix A)) :=
+       match rs with
+       | [] => Val (Ok (mkMatrix RowMajor sh data))
+       | r :: t => if negb (zlen r =? nc) then Val (Err LengthInconsistent) else go t (data ++ r)
+       end) rows data.
+Proof.
+  induction rows as [|r t IH]; intros data; cbn [for_try bind]; [reflexivity|].
+  destruct (negb (zlen r =? nc)); cbn [bind]; [reflexivity|]. apply IH.
+Qed.
+Lemma gen_Matrix_try_from_vec {A} c es (rows : list (list A)) : 0 <= imax c -> G_Matrix_try_from_vec c es rows = try_from_rows c es rows.
+Proof.
+  intros Hc. unfold G_Matrix_try_from_vec, try_from_rows, decide_ctor, decide_shape.
+  cbv zeta. cbn [G_Shape_new bind]. rewrite gen_Shape_try_to_axis_shape. cbn [bind].
+  change (rows_first_len rows) with (match rows with [] => 0 | r :: _ => zlen r end).
+  destruct (Shape_try_to_axis_shape c _ RowMajor) as [s|e]; [|reflexivity].
+  rewrite gen_AxisShape_size. destruct (AxisShape_size c s) as [n|w|w]; cbn [bind]; try reflexivity.
+  rewrite gen_Matrix_check_size by exact Hc. cbn [bind]. destruct (check_size c es n) as [sz|e]; [|reflexivity].
+  cbn [bind]. apply (gen_try_from_loop_v _ s rows (vec_with_capacity sz)).
+Qed.
+(* END *)
+(* BEGIN Matrix_try_from_slice *)
+(* the row loop with its early `return Err(LengthInconsistent)` is the model's recursion over the rows *)
+Lemma gen_try_from_loop_s {A} (nc : Z) (sh : AxisShape) : forall (rows : list (list A)) (data : list A),
+  (let* lr := for_try rows data (fun row st => let data := st in
+       if negb (zlen row =? nc) then Val (Err LengthInconsistent) else Val (Ok (vec_extend data row))) in
+   match lr with Ok data => Val (Ok (mkMatrix RowMajor sh data)) | Err e => Val (Err e) end)
+  = (fix go (rs : list (list A)) (data : list A) : res (result (matrix A)) :=
+       match rs with
+       | [] => Val (Ok (mkMatrix RowMajor sh data))
+       | r :: t => if negb (zlen r =? nc) then Val (Err LengthInconsistent) else go t (data ++ r)
+       end) rows data.
+Proof.
+  induction rows as [|r t IH]; intros data; cbn [for_try bind]; [reflexivity|].
+  destruct (negb (zlen r =? nc)); cbn [bind]; [reflexivity|]. apply IH.
+Qed.
+Lemma gen_Matrix_try_from_slice {A} c es (rows : list (list A)) : 0 <= imax c -> G_Matrix_try_from_slice c es rows = try_from_rows c es rows.
+Proof.
+  intros Hc. unfold G_Matrix_try_from_slice, try_from_rows, decide_ctor, decide_shape.
+  cbv zeta. cbn [G_Shape_new bind]. rewrite gen_Shape_try_to_axis_shape. cbn [bind].
+  change (rows_first_len rows) with (match rows with [] => 0 | r :: _ => zlen r end).
+  destruct (Shape_try_to_axis_shape c _ RowMajor) as [s|e]; [|reflexivity].
+  rewrite gen_AxisShape_size. destruct (AxisShape_size c s) as [n|w|w]; cbn [bind]; try reflexivity.
+  rewrite gen_Matrix_check_size by exact Hc. cbn [bind]. destruct (check_size c es n) as [sz|e]; [|reflexivity].
+  cbn [bind]. apply (gen_try_from_loop_s _ s rows (vec_with_capacity sz)).
+Qed.
+(* END *)
+(* BEGIN Matrix_from_iter *)
+Lemma gen_from_iter_loop {A} c (nc : Z) : forall (rows : list (list A)) (nr sz : Z) (data : list A),
+  (let* st := for_rows rows (nr, sz, data) (fun row st => let '(nrows, size, data) := st in
+       let data := vec_extend data row in
+       let* t1 := usub c (zlen data) size in
+       if negb (t1 =? nc) then Panic (PanicErr LengthInconsistent)
+       else let* t2 := uadd c nrows 1 in Val (t2, zlen data, data)) in
+   let '(nrows, size, data) := st in
+   Val (mkMatrix RowMajor (Shape_to_axis_shape_unchecked (mkShape nrows nc) RowMajor) data))
+  = (fix go (rs : list (list A)) (data : list A) (nr sz : Z) : res (matrix A) :=
+       match rs with
+       | [] => Val (mkMatrix RowMajor (Shape_to_axis_shape_unchecked (mkShape nr nc) RowMajor) data)
+       | r :: t =>
+         let data' := data ++ r in
+         let* dlt := usub c (zlen data') sz in
+         if negb (dlt =? nc) then Panic (PanicErr LengthInconsistent)
+         else let* nr' := uadd c nr 1 in go t data' nr' (zlen data')
+       end) rows data nr sz.
+Proof.
+  induction rows as [|r t IH]; intros nr sz data; cbn [for_rows bind]; [reflexivity|].
+  unfold vec_extend. cbv zeta.
+  destruct (usub c (zlen (data ++ r)) sz) as [d|w|w]; cbn [bind]; try reflexivity.
+  destruct (negb (d =? nc)); cbn [bind]; [reflexivity|].
+  destruct (uadd c nr 1) as [n'|w|w]; cbn [bind]; try reflexivity.
+  apply IH.
+Qed.
+
+Lemma gen_Matrix_from_iter {A} c (rows : list (list A)) : G_Matrix_from_iter c rows = from_iter c rows.
+Proof.
+  unfold G_Matrix_from_iter, from_iter. destruct rows as [|row rest]; [reflexivity|].
+  etransitivity; [|apply (gen_from_iter_loop c (zlen row) rest 1 (zlen row) row)].
+  cbv zeta. cbn [G_Shape_new G_Shape_to_axis_shape_unchecked bind].
+  match goal with |- bind ?x _ = bind ?y _ => change x with y; destruct y as [[[nr sz] d]|w|w] end; cbn [bind]; reflexivity.
+Qed.
+(* END *)
